@@ -16,6 +16,7 @@ pub fn setup_ops(users: &[String], rng: &mut Rng) -> Vec<Top> {
     ops.push(Top::StoreCode { kind: CodeKind::Puppet { code_tag: 1, checksum: None }, creator: None, id: None });
     ops.push(Top::StoreCode { kind: CodeKind::Puppet { code_tag: 2, checksum: Some(hex(&[0xAB; 32])) }, creator: Some(users[1].clone()), id: None });
     ops.push(Top::StoreCode { kind: CodeKind::Lifted, creator: None, id: None });
+    ops.push(Top::StoreCode { kind: CodeKind::Partial { reply: rng.chance(1, 2), sudo: rng.chance(1, 2), migrate: false }, creator: None, id: None });
     // a non-contiguous identifier and a duplicate
     let far = 10 + rng.below(50);
     ops.push(Top::StoreCode { kind: CodeKind::Puppet { code_tag: 3, checksum: None }, creator: None, id: Some(far) });
@@ -33,6 +34,7 @@ pub fn setup_ops(users: &[String], rng: &mut Rng) -> Vec<Top> {
     ops.push(mk(3, 9004, Some(users[0].clone()), vec![coin(200, "ua"), coin(200, "uc")], &users[2], None));
     ops.push(mk(far, 9005, Some(users[2].clone()), vec![], &users[0], None));
     ops.push(mk(far + 1, 9006, Some(users[0].clone()), vec![], &users[0], None));
+    ops.push(mk(4, 9007, Some(users[0].clone()), vec![coin(100, "ua")], &users[0], None));
     ops
 }
 
@@ -41,6 +43,7 @@ pub struct HistoryOpts {
     pub len: usize,
     pub sweep: bool,
     pub matrix: bool,
+    pub api: ApiKind,
 }
 
 /// Everything observable of a finished history (C19): per-step records + final raw storage.
@@ -73,6 +76,9 @@ pub fn account(info: &StepInfo, op: &Top, rep: &mut Report, prop: &str) {
     }
     for c in &out.data_cases {
         rep.bump(&format!("e1/data/{}", c));
+    }
+    for n in &out.notes {
+        rep.bump(&format!("e1/addr/{}", n));
     }
     rep.add("e1/rolled_back_changes_checked", out.rolled_back_writes);
     rep.add("e1/attr_and_event_strings", out.attr_strings);
@@ -137,7 +143,8 @@ pub fn run_history(rng: &mut Rng, opts: &HistoryOpts, rep: &mut Report, prop: &s
 }
 
 pub fn run_history_t(rng: &mut Rng, opts: &HistoryOpts, rep: &mut Report, prop: &str, record: bool) -> (Case, Vec<Disc>, Option<Vec<String>>) {
-    let mut w = World::new();
+    let mut w = World::with_api(opts.api);
+    let api = opts.api;
     if record {
         w.transcript = Some(vec![]);
     }
@@ -150,7 +157,7 @@ pub fn run_history_t(rng: &mut Rng, opts: &HistoryOpts, rep: &mut Report, prop: 
             account(i, &op, rep, prop);
         }
         if !d.is_empty() {
-            return (Case { ops }, d, finish_transcript(&mut w));
+            return (Case { ops, api }, d, finish_transcript(&mut w));
         }
     }
     let mut todo: Vec<Top> = vec![];
@@ -194,14 +201,14 @@ pub fn run_history_t(rng: &mut Rng, opts: &HistoryOpts, rep: &mut Report, prop: 
             account(i, &op, rep, prop);
         }
         if !d.is_empty() {
-            return (Case { ops }, d, finish_transcript(&mut w));
+            return (Case { ops, api }, d, finish_transcript(&mut w));
         }
     }
     // final quiescent-point checks
     let (d, _) = w.step(&Top::QueryBattery, rep);
     ops.push(Top::QueryBattery);
     let t = finish_transcript(&mut w);
-    (Case { ops }, d, t)
+    (Case { ops, api }, d, t)
 }
 
 pub fn run_case(case: &Case, rep: &mut Report, prop: &str) -> Vec<Disc> {
@@ -209,7 +216,7 @@ pub fn run_case(case: &Case, rep: &mut Report, prop: &str) -> Vec<Disc> {
 }
 
 pub fn run_case_t(case: &Case, rep: &mut Report, prop: &str, record: bool) -> (Vec<Disc>, Option<Vec<String>>) {
-    let mut w = World::new();
+    let mut w = World::with_api(case.api);
     if record {
         w.transcript = Some(vec![]);
     }
@@ -330,7 +337,7 @@ fn run_opaque(next_op: &mut dyn FnMut(&World) -> Option<Top>, rep: &mut Report) 
             for w in [&mut a, &mut b] {
                 if let Err(p) = catch(|| w.app.update_block(|bl| { bl.time = bl.time.plus_nanos(dt); bl.height += 1; })) {
                     discs.push(Disc { props: vec!["C14", "C01"], sig: "block-update-panics".into(), detail: p });
-                    return (Case { ops }, discs);
+                    return (Case { ops, api: ApiKind::Std }, discs);
                 }
             }
             rep.bump("e1/opaque/block_updates");
@@ -345,7 +352,7 @@ fn run_opaque(next_op: &mut dyn FnMut(&World) -> Option<Top>, rep: &mut Report) 
             Ok(r) => r,
             Err(p) => {
                 discs.push(Disc { props: vec!["C01", "C14", "C17"], sig: "panic-in-transaction-with-module-messages".into(), detail: format!("{}: {}", short_op(&op), p) });
-                return (Case { ops }, discs);
+                return (Case { ops, api: ApiKind::Std }, discs);
             }
         };
         rep.bump(&format!("e1/opaque/tx/{}", if ra.is_ok() { "ok" } else { "err" }));
@@ -362,7 +369,10 @@ fn run_opaque(next_op: &mut dyn FnMut(&World) -> Option<Top>, rep: &mut Report) 
             rep.bump("e1/opaque/err_state_unchanged_checks");
             if after != before {
                 discs.push(Disc { props: vec!["C01"], sig: "failed-transaction-with-module-messages-left-state-changes".into(), detail: format!("{}: {:?}", short_op(&op), crate::rawstate::diff(&before, &after)) });
-                return (Case { ops }, discs);
+                if let Some(detail) = crate::engines::e1_chain::app_queries_vs_committed(&a.app, &before, rep) {
+                    discs.push(Disc { props: vec!["C10"], sig: "app-query-observes-effects-of-failed-transaction-with-module-messages".into(), detail: format!("{}: {}", short_op(&op), detail) });
+                }
+                return (Case { ops, api: ApiKind::Std }, discs);
             }
         } else if after != before {
             rep.fingerprints.insert(fp_str(&format!("{:?}", trace.iter().map(|t| (t.entry.clone() as u8, t.tag % 1000)).collect::<Vec<_>>())));
@@ -400,30 +410,30 @@ fn run_opaque(next_op: &mut dyn FnMut(&World) -> Option<Top>, rep: &mut Report) 
                 let sb = crate::rawstate::dump(b.app.storage());
                 if !same || sa != sb {
                     discs.push(Disc { props: vec!["C01"], sig: "execute-multi-differs-from-the-same-messages-in-sequence".into(), detail: format!("{}: responses equal: {}, storage diff {:?}", short_op(&op), same, crate::rawstate::diff(&sa, &sb).iter().take(4).collect::<Vec<_>>()) });
-                    return (Case { ops }, discs);
+                    return (Case { ops, api: ApiKind::Std }, discs);
                 }
             }
             (Err(_), Err(0)) => {}
             (Err(_), Err(_)) => {
                 // a later message failed: A rolled everything back, the one-by-one twin kept the earlier ones — out of step, stop here
                 rep.bump("e1/opaque/histories_ended_by_partial_sequence");
-                return (Case { ops }, discs);
+                return (Case { ops, api: ApiKind::Std }, discs);
             }
             (Ok(_), Err(i)) => {
                 discs.push(Disc { props: vec!["C01"], sig: "execute-multi-succeeded-although-a-message-fails-alone".into(), detail: format!("{}: message #{} fails when executed in sequence", short_op(&op), i) });
-                return (Case { ops }, discs);
+                return (Case { ops, api: ApiKind::Std }, discs);
             }
             (Err(e), Ok(_)) => {
                 discs.push(Disc { props: vec!["C01"], sig: "execute-multi-failed-although-every-message-succeeds-in-sequence".into(), detail: format!("{}: {}", short_op(&op), first_line(e)) });
-                return (Case { ops }, discs);
+                return (Case { ops, api: ApiKind::Std }, discs);
             }
         }
         if !discs.is_empty() {
-            return (Case { ops }, discs);
+            return (Case { ops, api: ApiKind::Std }, discs);
         }
     }
     // purity at the end
     let mut answers = vec![];
     discs.extend(a.query_battery(rep, &mut answers));
-    (Case { ops }, discs)
+    (Case { ops, api: ApiKind::Std }, discs)
 }
